@@ -397,6 +397,22 @@ class Body:
                 work.append(s)
         return seen
 
+    def reach(self, src, avoid_blocks=(), avoid_edges=()):
+        avoid_blocks = set(avoid_blocks)
+        avoid_edges = set(avoid_edges)
+        if src in avoid_blocks:
+            return set()
+        seen = {src}
+        work = [src]
+        while work:
+            b = work.pop()
+            for s in self.succ(b):
+                if (b, s) in avoid_edges or s in seen or s in avoid_blocks:
+                    continue
+                seen.add(s)
+                work.append(s)
+        return seen
+
     def edge_guards(self, edge, blk):
         """every path from entry to blk uses CFG edge `edge`"""
         return blk not in self.reachable_avoiding_edges(0, [edge])
@@ -897,7 +913,12 @@ def _norm(t, identity, memo):
     if k == "closure":
         return ("closure", t[1], tuple(n(x) for x in t[2]))
     if k == "phi":
-        return mk_phi([n(x) for x in t[1]])
+        ms = [n(x) for x in t[1]]
+        # a temporary that is only re-borrowed through an identity-like call (deref_mut, by_ref …)
+        # is not redefined by it
+        keep = [x for x in ms if not (x[0] == "mutby" and isinstance(x[1], str) and
+                                     (x[1] in identity or callee_base(x[1]) in identity))]
+        return mk_phi(keep or ms)
     if k == "repeat":
         return ("repeat", n(t[1]), t[2])
     if k == "transmute":
